@@ -356,6 +356,7 @@ class Ctx:
         self.functions: set = set()
         self.modules: set = set()
         self.notes: list[str] = []
+        self.undecided_list: list[Finding] = []
 
     def site(self, modname, fn_or_qual, node=None) -> Site:
         modname = modname if modname.startswith(PKG) else PKG + "." + modname
@@ -378,6 +379,16 @@ class Ctx:
         f = Finding(self.prop, rule, site, construct, what, detail)
         if f.key() not in [g.key() for g in self.findings]:
             self.findings.append(f)
+
+    def undecided(self, rule, site: Site, construct, what="", **detail):
+        """The rule cannot locate (or read) the construct it is about: the anchored function exists but no longer has a shape the
+        rule understands.  Neither a pass nor a violation: the run ends as ANALYSIS-ERROR (exit 2) with this obligation listed -
+        an alarm (`fail`) needs a recognised construct that contradicts the rule."""
+        self.obligations += 1
+        self.instances[rule] = self.instances.get(rule, 0) + 1
+        f = Finding(self.prop, rule, site, construct, what, detail)
+        if f.key() not in [g.key() for g in self.undecided_list]:
+            self.undecided_list.append(f)
 
     def check(self, cond, rule, site, construct, what, note="", **detail):
         if cond:
